@@ -285,6 +285,12 @@ def fv_set(s):
     return permset.PermSet(s)
 
 
+def fv_setop(r):
+    """result of a binary &, |, -, ^: a plain set becomes a PermSet, anything else (ints, ...) is returned unchanged"""
+    from fv import permset
+    return permset.PermSet(r) if type(r) in (set, frozenset) else r
+
+
 class _JoinRewriter(ast.NodeTransformer):
     """'<literal>'.join(x)  ->  fv_join_hook('<literal>', x): str.join is a C method that rejects proxies"""
 
@@ -323,6 +329,14 @@ class _JoinRewriter(ast.NodeTransformer):
         return ast.copy_location(ast.Call(func=ast.Name(id="fv_set_hook", ctx=ast.Load()), args=[node], keywords=[]), node)
 
     visit_Set = visit_SetComp
+
+    def visit_BinOp(self, node):
+        # `a.keys() & b.keys()`, `s | t`, `s - t`, `s ^ t` build sets too
+        self.generic_visit(node)
+        if not self.symsets or not isinstance(node.op, (ast.BitAnd, ast.BitOr, ast.Sub, ast.BitXor)):
+            return node
+        self.hits += 1
+        return ast.copy_location(ast.Call(func=ast.Name(id="fv_setop_hook", ctx=ast.Load()), args=[node], keywords=[]), node)
 
     def visit_Compare(self, node):
         self.generic_visit(node)
@@ -375,6 +389,7 @@ def _rewritten(fn, clsname=None):
     g["fv_in_hook"] = fv_in
     g["fv_fstr_hook"] = fv_fstr
     g["fv_set_hook"] = fv_set
+    g["fv_setop_hook"] = fv_setop
     ns = {}
     code = compile(tree, inspect.getsourcefile(fn) or "<rewritten>", "exec")
     exec(code, g, ns)
